@@ -510,12 +510,30 @@ class Interp:
             s.add(f)
         return s.check() != z3.unsat
 
+    def _effect_free(self, stmts, frame):
+        """statements the extraction drops entirely (calls on the module-level logger, pass, docstrings): an `if` whose arms
+        consist only of these has no effect besides evaluating its test, so no path split is needed"""
+        for n in stmts:
+            if isinstance(n, ast.Pass):
+                continue
+            if isinstance(n, ast.Expr) and isinstance(n.value, ast.Constant):
+                continue
+            if isinstance(n, ast.Expr) and isinstance(n.value, ast.Call):
+                f = n.value.func
+                if isinstance(f, ast.Attribute) and isinstance(f.value, ast.Name) and f.value.id == "logger" and "logger" not in frame.env:
+                    continue
+            return False
+        return True
+
     def _exec_if_paths(self, s, frame, state, nfork=0):
         fr0, st0 = frame.clone(), state.fork()
         try:
             with use_state(state):
                 state.where = f"{frame.fname}:{s.lineno}"
-                c = self.decide(self.eval(s.test, frame))
+                tv = self.eval(s.test, frame)
+                if self._effect_free(s.body, frame) and self._effect_free(s.orelse, frame) and isinstance(norm(tv), (SV, bool, int)):
+                    return [(frame, state, ("normal",))]
+                c = self.decide(tv)
         except Fork as f:
             return self._split(f, fr0, st0, lambda fr, st: self._exec_if_paths(s, fr, st, nfork + 1), nfork)
         except PyRaise as e:
@@ -622,7 +640,10 @@ class Interp:
                 raise PyRaise("AssertionError", ast.unparse(s.test)[:80])
             return
         if isinstance(s, ast.If):
-            c = self.decide(self.eval(s.test, frame))
+            tv = self.eval(s.test, frame)
+            if self._effect_free(s.body, frame) and self._effect_free(s.orelse, frame) and isinstance(norm(tv), (SV, bool, int)):
+                return
+            c = self.decide(tv)
             self.exec_body_single(s.body if c else s.orelse, frame)
             return
         if isinstance(s, (ast.For, ast.While)):
